@@ -414,7 +414,8 @@ def oracle_case(case, ti):
                                    "monitor": mn, "recorded": got, "expected": e["exp"]})
                 # --- monitors that read other monitors by name read this trainer's own, current ones
                 rd = TYPE_READS.get(case["trainers"][t][0], {}).get(mn)
-                if rd is not None and mon[num][3]:
+                if rd is not None and mon[num][3] and op[0] == "lstep" and sp.cells[t][cn][0] == op[1] \
+                        and mon[num][3][-1][0] == sp.steps[op[1]]:
                     stamp, reads = mon[num][3][-1]
                     own = {m2: n2 for c2, m2, n2 in tr[2] if c2 == cn}
                     for name, (rn, last) in zip(rd, reads):
@@ -478,7 +479,7 @@ def run(ctx):
     if ctx["tier"] == "thorough":
         cases += exhaustive_cases(4)
         exhaustive = True
-    impl = F.run_impl(IMPL, {"cases": cases})
+    impl = run_impl_parallel(cases)
     model = F.eval_terms(ID, HEADER, [q_case(c) for c in cases], shard=max(20, len(cases) // 16 + 1))
     mismatches, oracle_fail = [], []
     kinds = Counter()
@@ -517,6 +518,16 @@ def run(ctx):
         "mismatches": mismatches, "oracle_failures": list(rep.values()),
         "traces_validated_against_impl": len(cases) - len(mismatches),
     }
+
+
+def run_impl_parallel(cases, chunks=8):
+    """the implementation side in several fresh interpreters at once"""
+    import concurrent.futures as cf
+    k = max(1, (len(cases) + chunks - 1) // chunks)
+    parts = [cases[i:i + k] for i in range(0, len(cases), k)]
+    with cf.ThreadPoolExecutor(len(parts)) as ex:
+        outs = list(ex.map(lambda p: F.run_impl(IMPL, {"cases": p}), parts))
+    return [t for o in outs for t in o]
 
 
 def witness_cases():
